@@ -209,6 +209,47 @@ def long_chain_case(ctx, idx, rng):
         ctx.close('long.operator_inner_product', abs(complex(got2) - want), 1e-9 * max(1.0, nH), 'operator_inner_product on a long chain', detail)
 
 
+def huge_bond_case(ctx, idx, rng):
+    """Short chains (3-4 sites) with very large, redundant bond dimensions (200..400) and MPO bonds 5..9: per-site work arrays beyond 2**20 entries
+    (anything that switches to a blocked / batched contraction above a size threshold), dense oracle still tiny."""
+    import pytenet.operation as po
+    L = int(rng.choice([3, 3, 4]))
+    d = int(rng.choice([2, 2, 3]))
+    charged = bool(rng.random() < 0.4)
+    qd = (np.arange(d) - d // 2) if charged else np.zeros(d, dtype=int)
+    D = [1] + [int(rng.integers(200, 401)) for _ in range(L - 1)] + [1]
+    if charged:
+        q0 = int(rng.integers(-1, 2))
+        qD = [np.array([q0])] + [rng.integers(-L, L + 1, size=D[i]) for i in range(1, L)] + [np.array([int(rng.integers(-1, 2))])]
+    else:
+        qD = [np.zeros(Di, dtype=int) for Di in D]
+    r = np.random.default_rng(int(rng.integers(0, 2 ** 31)))
+    psi = ptn.MPS(qd, qD, fill='random', rng=r)
+    chi = ptn.MPS(qd, [q.copy() for q in qD], fill='random', rng=r)
+    H = gen.rand_mpo(rng, qd, L, Dmax=9, kind='complex', boundary=(0, 0))
+    while max(H.bond_dims) < 5:
+        H = gen.rand_mpo(rng, qd, L, Dmax=9, kind='complex', boundary=(0, 0))
+    vp, vc, mH = refs.dense_state(psi.A), refs.dense_state(chi.A), refs.dense_operator(H.A)
+    if np.linalg.norm(vp) == 0 or np.linalg.norm(vc) == 0:
+        ctx.case(('huge-bonds', 'zero-state'), nontrivial=False)
+        return
+    ts = lambda T: float(np.prod([max(np.linalg.norm(a), 1e-300) for a in T.A]))
+    np_, nc, nH = ts(psi), ts(chi), ts(H)
+    ctx.case(('huge-bonds', f'L{L}', f'd{d}', 'charged' if charged else 'uncharged', f'Dw{max(H.bond_dims)}'), sample={'L': L, 'd': d, 'mps_bond_dims': D, 'mpo_bond_dims': H.bond_dims})
+    detail = {'L': L, 'd': d, 'mps_bond_dims': D, 'mpo_bond_dims': H.bond_dims, 'qd': qd}
+    _close(ctx, 'huge.vdot', ptn.vdot(chi, psi), np.vdot(vc, vp), np_ * nc, detail)
+    _close(ctx, 'huge.operator_average', ptn.operator_average(psi, H), np.vdot(vp, mH @ vp), nH * np_ ** 2, detail)
+    _close(ctx, 'huge.operator_inner_product', ptn.operator_inner_product(chi, H, psi), np.vdot(vc, mH @ vp), nH * np_ * nc, detail)
+    # environment blocks: right blocks from the library, left block by the library's left step; <psi|H|psi> reassembled at a random cut
+    BR = po.compute_right_operator_blocks(psi, H)
+    BL = np.array([[[1]]], dtype=complex)
+    cut = int(rng.integers(0, L))
+    for i in range(cut):
+        BL = po.contraction_operator_step_left(psi.A[i], psi.A[i], H.A[i], BL)
+    val = np.vdot(psi.A[cut].reshape(-1), po.apply_local_hamiltonian(BL, BR[cut], H.A[cut], psi.A[cut]).reshape(-1))
+    _close(ctx, 'huge.blocks-reassemble-expectation-value', val, np.vdot(vp, mH @ vp), nH * np_ ** 2, dict(detail, cut=cut))
+
+
 def steps_case(ctx, idx, rng):
     import pytenet.operation as po
     d = int(rng.integers(1, 4))
@@ -390,10 +431,11 @@ SPEC = {
         Workload('scalars', scalars_case, quick=500, thorough=64000),
         Workload('extreme-scales', extreme_scale_case, quick=300, thorough=30000),
         Workload('long-chain', long_chain_case, quick=40, thorough=3000),
+        Workload('huge-bonds', huge_bond_case, quick=8, thorough=320),
         Workload('suite-soak', soak_case, quick=0, thorough=1, shardable=False),
         Workload('steps', steps_case, quick=300, thorough=36000),
         Workload('projection', projection_case, quick=250, thorough=24000),
     ],
-    'shards': {'quick': 1, 'thorough': 16},
+    'shards': {'quick': 4, 'thorough': 16},
     'assumptions': ['dense contraction in pvm/refs.py and numpy.einsum'],
 }
